@@ -70,6 +70,51 @@ def markers(chk, acc):
                           dict(base, broken="a marker does not resolve to the source text and kind of its call site (C14b_to_slice_correct + correspondence)"))
 
 
+def marker_values(chk, acc):
+    """last clause of (b): the value a dbg! / unwrap_* marker reports for a Simplicity input is the source-level value"""
+    import gen
+    import progen
+    args = [corelib.bindings_sx([(n, v) for (n, _, v) in g.params]) for g in acc]
+    syms = impl("core", ["(dbgsyms %s %s)" % (quote(g.text), a) for g, a in zip(acc, args)])
+    tyq, where = [], []
+    for g, a, sy in zip(acc, args, syms):
+        if not sy.startswith("(ok"):
+            continue
+        for m in parse_sx(sy)[1:]:
+            if len(m) == 3 and m[2].split(":")[0] in ("dbg", "unwrap_left", "unwrap_right"):
+                tyq.append("(tparse %s)" % quote(m[2].split(":", 1)[1]))
+                where.append((g, a, m[0], m[2].split(":")[0], m[1]))
+    tys = impl("value", tyq)
+    per_prog = {}
+    for (g, a, cmr, kind, text), t in zip(where, tys):
+        if not t.startswith("(ok"):
+            continue
+        ty = progen.sx_to_ty(parse_sx(t)[1])
+        r = chk.sub_rng("mv/%s/%s" % (g.label, cmr[:8]))
+        vals = [gen.gen_val(r, ty) for _ in range(3)]
+        if progen.domain_size(ty) <= 8:
+            vals = progen.all_values(ty)
+        per_prog.setdefault((g.label, a), (g, [])) [1].extend((cmr, kind, text, v) for v in vals)
+    lines, metas = [], []
+    for (label, a), (g, qs) in per_prog.items():
+        lines.append("(mapvalue %s %s (%s))" % (quote(g.text), a, " ".join("(%s %s)" % (c, gen.val_sx(v)) for (c, _, _, v) in qs)))
+        metas.append((g, qs))
+    for ln, (g, qs), x in zip(lines, metas, impl("core", lines)):
+        if not x.startswith("(ok"):
+            if x.startswith("PANIC") or x.startswith("CRASH"):
+                chk.violation({"class": "debug-symbols-panic", "what": x[:200]}, {"cmd": "core", "line": ln, "implementation": x, "broken": "TrackedCall::map_value panicked"})
+            continue
+        res = parse_sx(x)[1:]
+        for (cmr, kind, text, v), r in zip(qs, res):
+            chk.case(ln + cmr + gen.val_sx(v), sample={"call": text[:80], "kind": kind, "value": gen.val_sx(v)[:80], "reported": sx(r)[:80]})
+            chk.count("marker-value.%s" % kind)
+            want = "(%s %s)" % ("dbg" if kind == "dbg" else "fallible", gen.val_sx(v))
+            if sx(r) != want:
+                chk.violation({"class": "marker-value", "what": "%s %s: %s reported as %s" % (kind, text[:60], gen.val_sx(v)[:80], sx(r)[:80])},
+                              {"cmd": "core", "line": ln, "program": g.text, "call": text, "value": gen.val_sx(v), "implementation": sx(r), "expected": want,
+                               "broken": "the value reconstructed for a tracked call from its Simplicity input is not the source-level value"})
+
+
 def run(chk, replay=None):
     build_harness()
     corelib.tables()
@@ -98,5 +143,6 @@ def run(chk, replay=None):
                                "broken": "the debug build and the plain build disagree on success (C14_debug_neutral + correspondence)"})
     chk.extra["pairs_compared"] = n
     markers(chk, acc)
+    marker_values(chk, acc)
     chk.extra["rule"] = ("generated programs biased towards dbg!/assert!/unwrap*/jet calls x witness assignments; each (program, witness) is run with include_debug_symbols "
                          "off and on through satisfy/encode/decode/Bit Machine and both outcomes are compared with each other and with the source semantics")
